@@ -49,7 +49,8 @@ def main(args):
     if not serializers and not opts.void_out:
         emit.error("missing output directives")
 
-    patcher = get_patcher(opts.patch)
+    with error_on_exception(emit):
+        patcher = get_patcher(opts.patch)
     supplementary_nodes = create_supplements(emit, opts.isar_includes, opts.include_dirs, patcher)
 
     model_nodes = dict(flatten_included_defs(supplementary_nodes))
